@@ -474,7 +474,22 @@ def monitor_dependencies(w: World, wf_spec: dict[str, dict[str, Any]]) -> tuple[
                 jump_targets.add(json.loads(row["payload"]).get("target_stage_ref_id"))
             except Exception:
                 pass
-    ids = w.refs
+    ids = dict(w.refs)
+    wf_spec = dict(wf_spec)
+    # stages created at plan time (synthetic stages of a builder): dependencies as stored, ledger name "built:<name>"
+    rows = w.q("SELECT id, ref_id, name, requisite_stage_ref_ids, join_type, join_threshold FROM stage_executions WHERE execution_id = ?", w.workflow_id)
+    known_ids = set(ids.values())
+    ref_to_name = {r["ref_id"]: ("built:" + (r["name"] or "")) for r in rows if r["id"] not in known_ids}
+    for r in rows:
+        if r["id"] in known_ids:
+            continue
+        try:
+            req = json.loads(r["requisite_stage_ref_ids"] or "[]")
+        except Exception:
+            req = []
+        nm = "built:" + (r["name"] or "")
+        ids[nm] = r["id"]
+        wf_spec[nm] = {"deps": sorted(ref_to_name[q] for q in req if q in ref_to_name), "join": r["join_type"] or "AND", "threshold": r["join_threshold"] or 0}
     # observation points: every task execution (ledger) and every durable NOT_STARTED->RUNNING of a stage
     points: list[tuple[str, int, str]] = [(e["ref"], e["audit_seq"], "task") for e in w.ledger.entries]
     by_id = {v: k for k, v in ids.items()}
